@@ -312,12 +312,15 @@ struct Exec
             ctx.count("lookalike_runs");
             size_t n = w.h.size();
             int made = 0;
-            for (size_t i = 0; i < n && made < 4; ++i) {
+            bool again = false; // a second look-alike of the same entity (three of a kind)
+            for (size_t i = 0; i < n && made < 5; again ? i : ++i) {
                 auto e = w.ent(int(i));
                 auto pe = std::dynamic_pointer_cast<ParentedEntity>(e);
-                if (pe == nullptr || pe->parent() == nullptr || !r.chance(1, 2)) {
+                if (pe == nullptr || pe->parent() == nullptr || (!again && !r.chance(1, 2))) {
+                    again = false;
                     continue;
                 }
+                again = !again && r.chance(1, 3);
                 auto t = twinOf(e);
                 bool deep = false;
                 if (auto ce = std::dynamic_pointer_cast<Component>(e)) {
@@ -507,6 +510,19 @@ struct Exec
             for (int k : sc) {
                 if (count[skeyOf(w.ent(k))] > 1) {
                     withPeer.push_back(k);
+                }
+            }
+            if (st.arg(5) % 3 == 0) {
+                // ... or at an entity outside the scope that has look-alikes inside it
+                std::vector<int> outside;
+                for (int k : w.live(1u << FAM_KIND[fam])) {
+                    if (std::find(sc.begin(), sc.end(), k) == sc.end() && count.count(skeyOf(w.ent(k))) != 0) {
+                        outside.push_back(k);
+                    }
+                }
+                if (!outside.empty()) {
+                    withPeer = outside;
+                    ctx.count("container_call_aimed_at_outsider_with_lookalike_in_scope");
                 }
             }
             if (!withPeer.empty()) {
